@@ -384,6 +384,32 @@ var classGens = []classGen{
 			}
 		}
 		one := big.NewInt(1)
+		// S + kL just above every power of two from the size of L up to the
+		// encoding width (the value below that bit is then smaller than L:
+		// a range check that looks at a masked or shortened S passes it),
+		// the largest k that fits, and a few random k
+		ks := []*big.Int{}
+		for b := L.BitLen() - 1; b < 8*n; b++ {
+			kk := new(big.Int).Lsh(one, uint(b))
+			kk.Sub(kk, S).Add(kk, L).Sub(kk, one).Div(kk, L) // ceil((2^b - S)/L)
+			ks = append(ks, kk)
+		}
+		kmax := new(big.Int).Sub(lim, one)
+		kmax.Sub(kmax, S).Div(kmax, L)
+		ks = append(ks, kmax)
+		for i := 0; i < 8 && kmax.Sign() > 0; i++ {
+			ks = append(ks, new(big.Int).Add(one, new(big.Int).Mod(new(big.Int).SetBytes(g.r.Bytes(8)), kmax)))
+		}
+		for _, kk := range ks {
+			if kk.Sign() <= 0 {
+				continue
+			}
+			s2 := new(big.Int).Mul(L, kk)
+			s2.Add(s2, S)
+			if s2.Cmp(lim) < 0 {
+				g.emitH("S-plus-kL", v, k.pk, msg, setS(sig, n, s2), ctx, ref.MustReject)
+			}
+		}
 		for _, s2 := range []*big.Int{
 			new(big.Int).Sub(L, one), new(big.Int).Set(L), new(big.Int).Add(L, one),
 			big.NewInt(0), big.NewInt(1),
